@@ -701,6 +701,7 @@ class ModelLoader(object):
                    | ON
                    | TRUE
                    | FALSE
+                   | RELID
         '''
         p[0] = p[1]
         
